@@ -68,11 +68,11 @@ def isClosedRing (r : Ring) : Bool := decide (2 ≤ r.length) && r.getLast? == r
 def tri (l : List Bool) : String :=
   if l.all id then "all" else if l.any id then "mixed" else "none"
 
-/-- `-mag:xl` when the coordinates are so large or so small that the cubic moment sums of the centroid
+/-- `-mag:far` (formerly `-mag:xl`, the signature of the known finding that fix 4edcec2 closed) when the coordinates are so large or so small that the cubic moment sums of the centroid
 formula leave the float64 range (|coordinate| ≥ 2^340 or all ≤ 2^-340) -/
 def magTag (p : Poly) : String :=
   let m := p.foldl (fun m r => r.foldl (fun m v => max m (max (Spec.absR v.x) (Spec.absR v.y))) m) 0
-  if m ≥ (2:Rat)^340 || (0 < m && m ≤ 1 / (2:Rat)^340) then "-mag:xl" else ""
+  if m ≥ (2:Rat)^340 || (0 < m && m ≤ 1 / (2:Rat)^340) then "-mag:far" else ""
 
 def polyTag (p : Poly) : String :=
   s!"r{min p.length 6}-closed:{tri (p.map isClosedRing)}-cw:{tri (p.map fun r => decide (Spec.shoelace2 r < 0))}"
@@ -351,8 +351,8 @@ def judgeBnd (mn mx : Pt UInt64) (rhs : Tok) : String :=
     else "OK bounds"
   | _, _, _ => s!"SPEC bounds {" ".intercalate rhs}"
 
-def judgeLine (line : String) : String :=
-  let (lhs, rhs) := splitArrow (tokens line)
+def judgeToks (toks : Tok) : String :=
+  let (lhs, rhs) := splitArrow toks
   let mods := rhs.filter (·.startsWith "modified:")
   let rhs := rhs.filter (fun t => !t.startsWith "modified:")
   match lhs with
@@ -402,6 +402,17 @@ def judgeLine (line : String) : String :=
       | _ => "BAD parse"
     | _ => "BAD line"
   | _ => "BAD line"
+
+/-- `cc <normal line>`: the answer is the first one that differed from the answer computed alone when
+8 goroutines repeated the call on private copies while 8 others hammered the same API (or the answer
+computed alone when none differed); it is judged like the plain call, class prefix `conc-`. -/
+def judgeLine (line : String) : String :=
+  match tokens line with
+  | "cc" :: rest =>
+    match (judgeToks rest).splitOn " " with
+    | k :: cls :: why => " ".intercalate (k :: ("conc-" ++ cls) :: why)
+    | _ => "BAD line"
+  | toks => judgeToks toks
 
 end GeomV.C03
 
